@@ -340,16 +340,20 @@ theorem foldFinish_eq (e : Env) (parent : Component) (fold : Fold) (lim : Option
         | none => .ok none
         | some elems => finishTail e parent fold c elems := by
   unfold foldFinish finishTail keptElems
-  split
-  · rfl
-  · split
-    · rfl
-    · split
+  cases c.vertexAt? fold.fromVid with
+  | none => rfl
+  | some fromV =>
+    simp only
+    generalize (if fromV.isSome = true then Option.map some (collectFoldElements computed lim.1 lim.2)
+      else some none) = eo
+    cases eo with
+    | none => rfl
+    | some elems =>
+      simp only
+      split
       · rfl
       · simp only [R.bind_eq_bind, R.pure_eq_ok]
-        congr 1; funext c2
-        congr 1; funext o
-        cases o <;> rfl
+        congr 1
 
 theorem finishTail_noLimits (env : Env) (parent : Component) (fold : Fold) (c : Ctx)
     (elems : Option (List Ctx)) :
@@ -382,7 +386,7 @@ theorem finishTail_norm (T T' : List Eid) (e : Env) (parent : Component) (fold :
     | some c3 =>
       simp only [Option.map_some, foldOutputs_norm, R.bind_map]
       congr 1; funext news
-      rw [mergeFolded_norm, R.map_bind, R.bind_map]
+      rw [mergeFolded_norm, R.map_bind]
       rfl
 
 /-- A fold without outputs, count outputs and nested outputs contributes no `folded_values`, provided
@@ -399,5 +403,114 @@ theorem foldOutputs_nil (e : Env) (fold : Fold) (elems : Option (List Ctx))
     | cons e0 rest =>
       have h0 : e0.foldedValues = [] := hclear _ rfl e0 (by simp)
       simp [foldOutputs, hf, ho, h0, mapR]
+
+/-! ### small facts used by the single-fold theorem -/
+
+theorem removeTag_fields {c c' : Ctx} {k : TagKey} (h : c.removeTag k = .ok c') :
+    c'.foldCounts = c.foldCounts ∧ c'.active = c.active := by
+  unfold Ctx.removeTag at h
+  split at h
+  · simp at h; subst h; exact ⟨rfl, rfl⟩
+  · simp at h
+
+theorem removeTags_fields {rs : List FieldRef} {c c' : Ctx} (h : removeTags rs c = .ok c') :
+    c'.foldCounts = c.foldCounts ∧ c'.active = c.active := by
+  induction rs generalizing c with
+  | nil => simp [removeTags] at h; subst h; exact ⟨rfl, rfl⟩
+  | cons r rs ih =>
+    simp only [removeTags] at h
+    obtain ⟨c1, h1, h2⟩ := R.bind_eq_ok h
+    obtain ⟨a1, a2⟩ := removeTag_fields h1
+    obtain ⟨b1, b2⟩ := ih h2
+    exact ⟨b1.trans a1, b2.trans a2⟩
+
+theorem foldCount?_append_self {c : Ctx} {e : Eid} (x : Option Nat) (h : c.foldCount? e = none) :
+    ({ c with foldCounts := c.foldCounts ++ [(e, x)] } : Ctx).foldCount? e = some x := by
+  simp only [Ctx.foldCount?, Option.map_eq_none_iff] at h
+  simp [Ctx.foldCount?, List.find?_append, h]
+
+theorem foldCount?_of_foldCounts_eq {c c' : Ctx} (h : c'.foldCounts = c.foldCounts) (e : Eid) :
+    c'.foldCount? e = c.foldCount? e := by
+  simp only [Ctx.foldCount?, h]
+
+/-- what a successful `finishTail` went through -/
+theorem finishTail_ok {e : Env} {parent : Component} {g : Fold} {c : Ctx}
+    {elems : Option (List Ctx)} {r : Option Ctx} (h : finishTail e parent g c elems = .ok r) :
+    c.foldCount? g.eid = none ∧ ∃ c2,
+      removeTags g.imports { c with foldCounts := c.foldCounts ++ [(g.eid, elems.map List.length)] }
+        = .ok c2 ∧
+      c2.foldCount? g.eid = some (elems.map List.length) ∧ c2.active = c.active ∧
+      ∃ o, applyPostFilters e parent g g.post c2 = .ok o ∧
+        match o with
+        | none => r = none
+        | some c3 => ∃ news c4, foldOutputs e g elems = .ok news ∧ mergeFolded c3 news = .ok c4 ∧
+            r = some c4 := by
+  unfold finishTail at h
+  split at h
+  · simp at h
+  · rename_i hs
+    have hnone : c.foldCount? g.eid = none := by
+      cases hx : c.foldCount? g.eid <;> simp_all
+    obtain ⟨c2, h2, h⟩ := R.bind_eq_ok h
+    obtain ⟨o, ho, h⟩ := R.bind_eq_ok h
+    obtain ⟨f1, f2⟩ := removeTags_fields h2
+    refine ⟨hnone, c2, h2, ?_, f2, o, ho, ?_⟩
+    · rw [foldCount?_of_foldCounts_eq f1]; exact foldCount?_append_self _ hnone
+    · cases o with
+      | none => simp at h; exact h.symm
+      | some c3 =>
+        simp only at h
+        obtain ⟨news, hn, h⟩ := R.bind_eq_ok h
+        obtain ⟨c4, h4, h⟩ := R.bind_eq_ok h
+        simp at h
+        exact ⟨news, c4, hn, h4, h.symm⟩
+
+/-- a fold that does not exist for the context (`elems = none`) survives `finishTail` only without
+post-filters (otherwise `unreachable!`, F-9) -/
+theorem finishTail_none_post {e : Env} {parent : Component} {g : Fold} {c : Ctx} {r : Option Ctx}
+    (h : finishTail e parent g c none = .ok r) : g.post = [] := by
+  obtain ⟨_, c2, _, hslot, _, o, ho, _⟩ := finishTail_ok h
+  cases hp : g.post with
+  | nil => rfl
+  | cons f fs =>
+    rw [hp] at ho
+    simp only [applyPostFilters, R.bind_eq_bind, applyPostFilter, hslot, Option.map_none] at ho
+    simp at ho
+
+/-- transfer of a commuting step along `norm`-equal inputs -/
+theorem rel_of_comm {α : Type} {T : List Eid} {f : Ctx → R α} {m : α → α}
+    (hf : ∀ x, f (x.norm T false) = (f x).map m) {x x' : Ctx}
+    (hx : x.norm T false = x'.norm T false) {y : α} (h : f x = .ok y) :
+    ∃ y', f x' = .ok y' ∧ m y = m y' := by
+  have h1 := hf x
+  have h2 := hf x'
+  rw [hx, h2, h] at h1
+  cases hy : f x' with
+  | ok y' => rw [hy] at h1; simp at h1; exact ⟨y', rfl, h1.symm⟩
+  | panic s => rw [hy] at h1; simp at h1
+  | fuel => rw [hy] at h1; simp at h1
+
+theorem clear_of_map_norm_eq {T' : List Eid} {l l' : List Ctx}
+    (h : l.map (Ctx.norm T' false) = l'.map (Ctx.norm T' false))
+    (hc : ∀ e ∈ l, e.foldedValues = []) : ∀ e ∈ l', e.foldedValues = [] := by
+  induction l generalizing l' with
+  | nil => cases l' <;> simp_all
+  | cons a as ih =>
+    cases l' with
+    | nil => simp
+    | cons b bs =>
+      simp only [List.map_cons, List.cons.injEq] at h
+      intro e he
+      rcases List.mem_cons.mp he with rfl | he
+      · have : (Ctx.norm T' false a).foldedValues = (Ctx.norm T' false e).foldedValues := by rw [h.1]
+        exact this.symm.trans (hc a (by simp))
+      · exact ih h.2 (fun x hx => hc x (by simp [hx])) e he
+
+theorem norm_append_slot_mem {T : List Eid} {e : Eid} (hT : T.contains e = true) (c : Ctx)
+    (x : Nat) :
+    ({ c with foldCounts := c.foldCounts ++ [(e, some x)] } : Ctx).norm T false =
+      { c.norm T false with foldCounts := (c.norm T false).foldCounts ++ [(e, some 0)] } := by
+  have hT' : e ∈ T := by simpa using hT
+  simp [Ctx.norm, normSlot, hT']
 
 end TF.Engine
